@@ -4,7 +4,7 @@
     length by induction. *)
 From Coq Require Import Lia ZArith.
 From Hoot Require Import Base Chunk Body Httparse Parser Url Request Call Flow Script.
-From Hoot.proofs Require Import BytesLemmas Reasons C17_proofs C06_proofs C09_inv C09_chunk C09_calls C09_flow.
+From Hoot.proofs Require Import BytesLemmas Reasons C17_proofs C06_proofs C09_inv C09_chunk C09_calls C09_flow AfterErr.
 Open Scope N_scope.
 
 (* ------------------------------------------------------------------ state invariant *)
@@ -183,7 +183,9 @@ Proof.
   pose proof (recv_body_read_safe f win cap Hi) as Hr.
   destruct (recv_body_read f win cap) as [[[f' i] o]|e|site]; cbn [safe fst] in Hr; try contradiction.
   - split; [cbn; discriminate|]. cbn [fst]. apply sinv_track. apply sinv_with_flow; assumption.
-  - apply good_same; [exact HS|apply err_neq].
+  - (* a failed read: the decoder keeps the state it reached; the invariant holds there too *)
+    split; [apply err_neq|]. cbn [fst]. apply sinv_with_flow; [exact HS|].
+    apply recv_body_after_err_inv. exact Hi.
 Qed.
 
 Lemma written_neq sum used out : obs_written sum used out <> obs_panic.
